@@ -67,7 +67,8 @@ B3 == <<Ty(Q(0), <<>>, <<>>, [tag |-> "tuple", tys |-> <<Q(1), Q(2)>>], <<>>),
         Ty(Q(3), <<>>, <<>>, [tag |-> "primitive", prim |-> "u8"], <<>>),
         Ty(Q(4), <<Sa, Sa>>, <<>>, [tag |-> "composite", fields |-> <<>>], <<>>)>>
 B4 == <<Ty(Q(70), <<S64>>, <<>>, [tag |-> "sequence", ty |-> Q(16384)], <<>>)>>       \* multi-byte compacts
-Bases == <<B1, B2, B3, B4>>
+B5 == [i \in 1..40 |-> Ty(Q(i - 1), <<>>, <<>>, [tag |-> "primitive", prim |-> Prims[(i % 15) + 1]], <<>>)]   \* many entries
+Bases == <<B1, B2, B3, B4, B5>>
 
 \* positions (1-based) of the bytes that start a compact length prefix or an option/enum tag: every
 \* byte is a candidate for SetByte anyway; CorruptLength rewrites a prefix with a hostile length
